@@ -7,6 +7,7 @@
 -/
 import BB.Proofs.Add
 import BB.Proofs.Delay
+import BB.Properties.C10
 
 namespace BB.C16
 open BB BB.Sequence
@@ -244,5 +245,54 @@ theorem bp_add_segments (a b : BP) :
   refine ⟨add_body a b, ?_, inv_add a b, rfl⟩
   have := congrArg List.length (add_body a b)
   simpa using this
+
+/-- without waituntil segments the resolved durations do not depend on the elapsed time -/
+theorem resolveGo_nowait (segs : List Seg) (hnw : ∀ s ∈ segs, s.fn.isWait = false) (el el' : ℚ) :
+    BP.resolveGo segs el = BP.resolveGo segs el' := by
+  induction segs generalizing el el' with
+  | nil => rfl
+  | cons s rest ih =>
+    have hs : s.fn.isWait = false := hnw s (by simp)
+    simp only [BP.resolveGo, hs, Bool.false_eq_true, if_false]
+    split
+    · rw [ih (fun t ht => hnw t (by simp [ht])) (el + _) (el' + _)]
+    · rfl
+
+theorem badSpecial_append (a b : BP) (c : BP) (hc : c.segs = a.segs ++ b.segs) :
+    badSpecial c = (badSpecial a || badSpecial b) := by
+  unfold badSpecial
+  rw [hc, List.any_append]
+
+/-- **blueprint concatenation forges to the concatenation**: if `b₁` forges at its sample rate and
+    `b₂` (no waituntil segment) forges at the same rate, then `b₁ + b₂` forges, its waveform blocks
+    are those of `b₁` followed by those of `b₂`, sample counts and segment durations likewise -/
+theorem bp_add_forge (a b : BP) (sr : ℚ) (ha : a.SR = .num sr) (hb : b.SR = .num sr)
+    (hnw : ∀ s ∈ b.segs, s.fn.isWait = false) (fa fb : Forged)
+    (h1 : forgeBP a = .ok fa) (h2 : forgeBP b = .ok fb) :
+    ∃ f, forgeBP (a.add b) = .ok f ∧ f.blocks = fa.blocks ++ fb.blocks ∧ f.N = fa.N + fb.N ∧
+      f.newdurations = fa.newdurations ++ fb.newdurations ∧ f.SR = sr := by
+  obtain ⟨sra, da, na, hsa, hda, hna, hba, rfl⟩ := (forge_ok_iff a fa).mp h1
+  obtain ⟨srb, db, nb, hsb, hdb, hnb, hbb, rfl⟩ := (forge_ok_iff b fb).mp h2
+  rw [ha] at hsa; cases hsa
+  rw [hb] at hsb; cases hsb
+  let c : BP := { segs := a.segs ++ b.segs, marker1 := a.marker1 ++ b.marker1, marker2 := a.marker2 ++ b.marker2, SR := a.SR }
+  have hc : forgeBP (a.add b) = forgeBP c :=
+    forgeBP_body _ _ (add_body a b) rfl rfl rfl
+  have hres : c.resolveWaits = .ok (da ++ db) := by
+    unfold BP.resolveWaits at *
+    apply resolveGo_append a.segs b.segs 0 da db hda
+    rw [resolveGo_nowait b.segs hnw _ 0]; exact hdb
+  have hcnt := C10.countsGo_append sr da db na nb hna hnb
+  have hbad : badSpecial c = false := by
+    rw [badSpecial_append a b c rfl, hba, hbb]; rfl
+  have hlen : na.length = a.segs.length := by
+    rw [countsGo_length sr da na hna, resolveGo_length a.segs 0 da hda]
+  refine ⟨assemble c sr (na ++ nb), ?_, ?_, ?_, ?_, rfl⟩
+  · rw [hc, (forge_ok_iff c _)]
+    exact ⟨sr, da ++ db, na ++ nb, ha, hres, hcnt, hbad, rfl⟩
+  · simp only [assemble]
+    exact C10.mkBlocks_append sr a.segs b.segs na nb hlen
+  · simp only [assemble, sumN_append]
+  · simp only [assemble, List.map_append]
 
 end BB.C16
